@@ -7,17 +7,16 @@ import (
 	"github.com/gordian-engine/gordian/tm/tmconsensus"
 )
 
-// VH_C16_Conc_LocksetEveryMethod: for each of the five map-backed stores, two client
+// VH_C16_Conc_LocksetEveryMethod: for each of the seven stores, two client
 // goroutines each call EVERY method of the store once (saves first, then loads; the second
 // client in the opposite order, with its own arguments for one round/height and the same for
 // another). The lockset check (verifrt.LocksetRace) demands that any two accesses of the two
 // clients to one map object, one of them a write, are made under a common lock held
 // exclusively by the writer. The check does not depend on the interleaving, so one schedule per
 // store covers every method pair, including the ones the interleaving harnesses do not pair up.
-// (MirrorStore and StateMachineStore keep scalars, not maps: covered by VH_C16_Conc_Positions
-// at lock granularity only.)
+// The check tracks map objects and memory cells reached through pointers (struct fields).
 func VH_C16_Conc_LocksetEveryMethod() {
-	store := verifrt.Choose("store", 5)
+	store := verifrt.Choose("store", 7)
 	vhStress(func() { vhLocksetAll(store) })
 	verifrt.Reach("lockset:every-method-called-by-two-clients")
 }
@@ -76,6 +75,22 @@ func vhLocksetAll(store int) {
 				s.OverwriteRoundPrecommitProofs(vhCtx, h, 0, proofs())
 			}
 			loads := func() { s.LoadRoundState(vhCtx, 1, 0); s.LoadRoundState(vhCtx, 2, 0) }
+			return vhOrder(saves, loads, loadsFirst)
+		}
+		a, b = client(1, false), client(2, true)
+	case 5:
+		s := NewMirrorStore()
+		client := func(h uint64, loadsFirst bool) func() {
+			saves := func() { s.SetNetworkHeightRound(vhCtx, h+1, 0, h, 0) }
+			loads := func() { s.NetworkHeightRound(vhCtx) }
+			return vhOrder(saves, loads, loadsFirst)
+		}
+		a, b = client(1, false), client(2, true)
+	case 6:
+		s := NewStateMachineStore()
+		client := func(h uint64, loadsFirst bool) func() {
+			saves := func() { s.SetStateMachineHeightRound(vhCtx, h, 0) }
+			loads := func() { s.StateMachineHeightRound(vhCtx) }
 			return vhOrder(saves, loads, loadsFirst)
 		}
 		a, b = client(1, false), client(2, true)
